@@ -1,0 +1,7 @@
+//go:build !verif
+
+package z
+
+// verifPoint is a verification hook point. Without the build tag `verif` it is an empty function
+// that the compiler inlines away.
+func verifPoint(id int, a, b uint64) {}
